@@ -5,6 +5,8 @@ package checkpoint
 //vf:use tinyredis
 //vf:job C14 quick VF_C14_Load l0=0..6 l1=0..6
 //vf:job C14 quick VF_C14_Version ver=0..3
+//vf:job C19 quick VF_C14_Load l0=4 l1=5 secret=1
+//vf:replayE C19 VF_C14_Load
 //vf:job C14 thorough VF_C14_Load3 l0=1..6 l1=0..6 l2=1..6
 //vf:replayE C14 VF_C14_Load VF_C14_Version VF_C14_Load3
 //vf:stub C14 utils.OpenRedisConn: returns the model target (tiny Redis); its fidelity to a real Redis is trusted
@@ -137,7 +139,13 @@ func vfCheckLoad(r *vfRedis, dbs []int, wants []vfWant) {
 	vfStub("github.com/alibaba/RedisShake/redis-shake/common.OpenRedisConn",
 		func(target []string, authType, passwd string, isCluster bool, tls bool) (redigo.Conn, error) { return r, nil })
 	vfMapOrder(3)
-	runid, offset, db, err := LoadCheckpoint(0, vfA, []string{"t:1"}, "auth", "pw", vfCk, false, false)
+	passwd := "pw"
+	if vfParam("secret", 0) == 1 {
+		// C19: the target password is a symbolic secret; every log line of this path is checked
+		passwd = vfStr("tgtpw", 6)
+		vfSecret("target password", passwd)
+	}
+	runid, offset, db, err := LoadCheckpoint(0, vfA, []string{"t:1"}, "auth", passwd, vfCk, false, false)
 
 	// specification
 	best := int64(-1)
